@@ -156,6 +156,7 @@ func (tv *treeVocab) topicClass(in *Interp, t *Trace, upto int, e ast.Expr) stri
 
 func (tv *treeVocab) row(in *Interp, t *Trace) walkRow {
 	w := walkRow{events: rowSet{}, excused: rowSet{}}
+	nonEmpty := map[string]bool{} // value lists known to be non-empty on this path
 	for i, e := range t.Ev {
 		switch {
 		case e.Kind == EvCall && e.Callee == types.Object(tv.fnParam):
@@ -165,6 +166,9 @@ func (tv *treeVocab) row(in *Interp, t *Trace) walkRow {
 				cls = tv.childClass(in, t, i, sel.X) + ".values"
 			}
 			w.events["collect "+cls] = true
+			if !nonEmpty[cls] {
+				w.unguarded = append(w.unguarded, cls)
+			}
 		case e.Kind == EvCall && e.Callee == types.Object(tv.fi.Obj):
 			// recursive descent: find topic and node arguments by type
 			topicCls, childCls := "?", "?"
@@ -204,6 +208,8 @@ func (tv *treeVocab) row(in *Interp, t *Trace) walkRow {
 				// which side are we on? the refinement recorded it: find via re-evaluation of the outcome
 				if isEmptySide(e) {
 					w.excused[base+".values"] = true
+				} else {
+					nonEmpty[base+".values"] = true
 				}
 			default:
 				// result of the collector: `!fn(x)` / `fn(x)`
@@ -316,6 +322,9 @@ func c04Table(c *Ctx, prefix, fname string, ref map[string]rowSet, dontCare map[
 			}
 			if len(w.foreign) > 0 && bad == nil {
 				bad, why = t, "the walk depends on a condition outside the table: "+strings.Join(w.foreign, "; ")
+			}
+			if len(w.unguarded) > 0 && bad == nil {
+				bad, why = t, "the collector is called with a value list that may be empty ("+strings.Join(w.unguarded, ", ")+"): the first-match collectors index element 0 and panic"
 			}
 			if w.stopped {
 				continue
